@@ -7,6 +7,14 @@ Proof      : coq/Props/C13.v (C13_prune_sound, C13_scan_equal, C13_bounds_true) 
              Gen/GenManifest13.v, REGENERATED from FileManager.create_manifest_file / read_manifest_file (entry order,
              the per-record bounds expressions, the reader): any number of ADDED / EXISTING entries and columns, each
              DataFile comes back with its own bounds (value and type), so pruning on a manifest's bounds is sound.
+             The KEYS of the bounds (field ids): C13_schema_ids_are_ints over Gen/GenFieldKey.v, the guards on a field's id REGENERATED
+             from Schema.__post_init__ (every accepted schema has pairwise different INT ids; false -- and not compiling -- for a
+             constructor that only tests `f_id in seen_ids`); C13_key_codec_inverse (int(str(z)) = z for every int: the decimal rendering
+             and Python's int() parser, Model/FieldKey.v); C13_bound_keys_roundtrip / C13_accepted_schema_keys_roundtrip (a statistics map
+             keyed by such ids survives the writer's and reader's dict comprehensions unchanged); C13_bound_keys_roundtrip_distinct_ids_refuted
+             (for ids that are merely pairwise != it does not: 1 and "1"); C13_scan_equal_accepted_schema (id uniqueness no longer a
+             hypothesis); C13_entry_survives_rewrite over Gen/GenEntryCodec.v with the real bound and key codecs (bounds survive
+             write / read / carry-over as EXISTING / read).
 Tie        : translator (GenPrune, GenBound, GenManifest13) + correspondence of every hand-written model piece with the code:
                prims    Python <,<=,== on values           vs Model/Value.v py_lt/py_le/py_eqb
                prune    filters._file_may_match            vs Model/Prune.v file_may_match (uses Gen)
@@ -16,12 +24,19 @@ Tie        : translator (GenPrune, GenBound, GenManifest13) + correspondence of 
                manifest real create_manifest_file -> raw Avro records -> read_manifest_file on multi-entry, multi-column
                         manifests (bounds of different columns / files equal as Python values but differently typed)
                         vs Model/Manifest13.v write_manifest / via_manifest, and the pruning decision on the DataFile read back
+               keys     Python str(k) / int(s) vs Model/FieldKey.v kenc / kdec; real create_manifest_file -> raw Avro keys ->
+                        read_manifest_file on DataFiles keyed by ARBITRARY Python ids vs key_trip (merged / renamed / unreadable)
+               schema-ids  the real Schema constructor on id lists of None / bool / int / float / str objects vs Model/SchemaIds.v
+                        schema_ids_ok (over the regenerated guards)
 Oracle /   : implementation-only, independent of the model:
 search       unsound  real bounds of a multi-column file -> real manifest (sibling entries, ADDED / EXISTING) -> real
                         _file_may_match says skip -> real pyarrow selects a row
-               manifest every bound of every entry of a real manifest comes back with its value and type
+               manifest every bound of every entry of a real manifest comes back under its FIELD ID with its value and type --
+                        from the manifest, from a second manifest written from the same objects, and from the manifest a partial
+                        delete writes from the DataFiles it read back (not yet looked into); field ids = whatever Schema accepts
                e2e      scan(filter) with pruning vs the same scan with pruning disabled, real tables (single appends,
-                        multi-append transactions, partial deletes that rewrite a manifest, retried commits)
+                        multi-append transactions, partial deletes that rewrite a manifest, retried commits; schemas with whatever
+                        field ids the constructor accepts, incl. a family of same-kind columns under ids that meet as str())
                codec    _decode_bound(_encode_bound(v)) is v, type-faithfully
 """
 from __future__ import annotations
@@ -40,14 +55,22 @@ from harness.lib.values import DOMAIN, LITERALS, NAN, same, val_json, val_to_coq
 
 LEVEL = "proof"
 THEOREMS = ["C13_prune_sound", "C13_scan_equal", "C13_bounds_true", "C13_bound_roundtrip",
-            "C13_manifest_roundtrip", "C13_prune_sound_via_manifest", "C13_scan_equal_via_manifest"]
+            "C13_manifest_roundtrip", "C13_prune_decision_via_manifest", "C13_prune_sound_via_manifest", "C13_scan_equal_via_manifest",
+            "C13_schema_ids_are_ints", "C13_key_codec_inverse", "C13_bound_keys_roundtrip", "C13_accepted_schema_keys_roundtrip",
+            "C13_bound_keys_roundtrip_distinct_ids_refuted", "C13_scan_equal_accepted_schema", "C13_entry_survives_rewrite"]
 REQ = ["DS.Model.Value", "DS.Gen.GenPrune", "DS.Model.Prune"]
 REQB = ["DS.Model.Value", "DS.Model.BoundPrim", "DS.Gen.GenBound", "DS.Model.Bound"]
 REQM = ["DS.Model.Value", "DS.Model.BoundPrim", "DS.Gen.GenBound", "DS.Model.Bound", "DS.Model.ManifestPrim", "DS.Gen.GenManifest13",
         "DS.Gen.GenPrune", "DS.Model.Prune", "DS.Model.Manifest13"]
 
 MANIFEST_ENTRY = {
-    "level_text": "C13_prune_sound / C13_scan_equal / C13_bounds_true proved in Coq for every file content, schema, filter "
+    "level_text": "field ids (the keys of the bounds): C13_schema_ids_are_ints proved over the id guards regenerated from "
+                  "Schema.__post_init__ (accepted schemas have pairwise different int ids), C13_key_codec_inverse (int(str(z)) = z, "
+                  "all z, over a model of Python's int() parser), C13_bound_keys_roundtrip / C13_accepted_schema_keys_roundtrip (maps "
+                  "keyed by such ids survive the two dict comprehensions), ..._distinct_ids_refuted (not so for merely pairwise-!= "
+                  "ids), C13_scan_equal_accepted_schema, C13_entry_survives_rewrite (regenerated entry codec with the real bound / "
+                  "key codecs: write, read, carry over as EXISTING, read); "
+                  "C13_prune_sound / C13_scan_equal / C13_bounds_true proved in Coq for every file content, schema, filter "
                   "conjunction and literal (unbounded), over the pruning decision regenerated from filters._file_may_match on "
                   "every run; C13_bound_roundtrip over the regenerated bound codec; C13_manifest_roundtrip / "
                   "C13_prune_sound_via_manifest / C13_scan_equal_via_manifest for every manifest (any number of ADDED and "
@@ -58,7 +81,13 @@ MANIFEST_ENTRY = {
                   "implementation-only oracles (real multi-column bounds -> real manifest -> real pruning -> real pyarrow; "
                   "every bound of a real manifest comes back type-faithfully; pruned vs unpruned scans over single appends, "
                   "multi-append transactions, partial deletes and retried commits) search for a failing input",
-    "level_note": "trusted: Coq kernel; translator/gen_prune.py, gen_bound.py, gen_manifest13.py; assumption PA-exact (pyarrow "
+    "level_note": "the pruning / manifest model is stated over INT field ids (what the constructor admits, by C13_schema_ids_are_ints); "
+                  "the key trip for arbitrary Python ids is Model/FieldKey.v key_trip (tied by the `keys` correspondence), not the "
+                  "pruning model itself; C13_scan_equal* speak of scans pyarrow does not refuse (a pruned scan may return where the "
+                  "unpruned one raises: DESIGN.md C13 Interpretation); C13_bound_roundtrip does not speak of the sign of a float zero nor "
+                  "of the text of temporal bounds (codec oracle on the real code); legacy untagged bounds and the JSON-manifest fallback "
+                  "of read_manifest_file are not modelled; Python's int() on digits of other scripts is outside the key model; "
+                  "trusted: Coq kernel; translator/gen_prune.py, gen_bound.py, gen_manifest13.py, gen_fieldkey.py, gen_entrycodec.py; assumption PA-exact (pyarrow "
                   "evaluates a filter exactly or raises; lossy is_in casts are an unconstrained oracle X); assumptions JSON-exact "
                   "and Avro-exact (json / fastavro give back the payloads, records and string maps they were given; validated "
                   "on real manifests every run); columns are kind-homogeneous; the harness runs the code faithfully",
@@ -1256,6 +1285,127 @@ def corr_manifest(ctx, bench: ManifestBench, cases: List[Dict[str, Any]]) -> Non
         ctx.sample({"manifest_case": manifest_case_json(cases[0]), "pruning_exprs": [(col, op, val_json(v)) for col, op, v in fes_all[0]], "impl_keep": impl_p[0]})
 
 
+# ---------------------------------------------------------------------------------- field-id keys: model vs code
+REQK = ["DS.Model.Value", "DS.Model.FieldKey"]
+REQS = ["DS.Model.Value", "DS.Model.BoundPrim", "DS.Model.FieldKey", "DS.Gen.GenFieldKey", "DS.Model.SchemaIds"]
+KEY_ALPHABET = list(" \t\n\x0b\x1c\x1f+-_0123456789") + ["a", ".", "e", "\xa0", "\u2003", "\x00"]
+KEY_STRINGS = ["", " ", "1", " 1", "1 ", "\n1\t", "+1", "-1", "- 1", "+-1", "--1", "01", "007", "1_0", "1__0", "_1", "1_", "1_000_000", "0_1", "+0", "-0",
+               "1.0", "1e3", "0x10", "True", "None", "a", "12a", "1 2", "\xa01\u2003", "١", "１２", "1\x00", "\x1c7\x1f", "9" * 40, "-" + "9" * 25]
+
+
+def codes_coq(t: str) -> str:
+    return "[" + "; ".join(f"{ord(c)}%Z" for c in t) + "]"
+
+
+def py_int_of_str(t: str) -> Any:
+    try:
+        return (0, int(t))
+    except ValueError:
+        return (1, 0)
+
+
+def corr_keys(ctx, bench: ManifestBench) -> None:
+    """Model/FieldKey.v against Python and against the real file manager:
+         str      str(k) of None / bool / int / str objects                               vs kenc
+         int      int(s) of strings (spaces, signs, underscores, leading zeros, junk, other scripts) vs kdec
+         trip     real create_manifest_file -> the raw Avro map keys -> real read_manifest_file, on DataFiles whose bounds are
+                  keyed by ARBITRARY Python ids (whether or not a Schema would accept them: this is the file manager alone)
+                                                                                          vs key_write / key_trip"""
+    rng = ctx.rng
+    # --- str(k)
+    ids_pool: List[Any] = list(INT_IDS) + [-7, -(2**64), 10**30, True, False, None] + [t for k in INT_IDS[:6] for t in id_twins(k)] + ["", "a", "é"]
+    got = coqbuild.coq_eval(REQK, [f"kenc {val_to_coq(k)}" for k in ids_pool])
+    bad = []
+    for k, g in zip(ids_pool, got):
+        want = [ord(c) for c in str(k)]
+        have = None if g is None else list(g.x if hasattr(g, "x") else g)
+        if have != want:
+            bad.append({"id": id_text(k), "python_str": str(k), "model": repr(g)[:200]})
+    ctx.correspondence("keys-str", len(ids_pool), bad)
+    # --- int(s)
+    strings = list(KEY_STRINGS)
+    for _ in range(260 if ctx.tier == "quick" else 3000):
+        strings.append("".join(rng.choice(KEY_ALPHABET) for _ in range(rng.choice([1, 2, 2, 3, 4, 6]))))
+    for _ in range(60 if ctx.tier == "quick" else 600):
+        z = rng.choice([rng.randrange(-1000, 1000), rng.randrange(-2**70, 2**70)])
+        strings.append(rng.choice(["", " ", "\n"]) + rng.choice(["", "+"] if z >= 0 else [""]) + rng.choice(["", "0", "00"] if z >= 0 else [""]) + str(z) + rng.choice(["", " ", "\t"]))
+    got = coqbuild.coq_eval(REQK, [f"match kdec {codes_coq(t)} with IntOk z => (0, z) | IntValueError => (1, 0) | IntOutside => (2, 0) end" for t in strings])
+    bad = []
+    outside = 0
+    for t, g in zip(strings, got):
+        ctx.count(1, ("key-int", t))
+        g = tuple(g)
+        if g[0] == 2:
+            outside += 1          # a non-ASCII, non-space character: Python may accept it as a digit of another script; not modelled
+            if all(ord(c) < 128 for c in t):
+                bad.append({"string": t, "python": py_int_of_str(t), "model": "outside, for an ASCII string"})
+            continue
+        if g != py_int_of_str(t):
+            bad.append({"string": t, "python": py_int_of_str(t), "model": g})
+    ctx.correspondence("keys-int", len(strings), bad)
+    ctx.stats["keys_int_strings_outside_model"] = outside
+    # --- the trip through a real manifest
+    cases = [[1, "1"], [1, " 1", "01"], ["+2", 2], [True, 2], [None], ["a"], [1.5], [10, "1_0"], ["07"], [0, "00"], [2**70, -5]]
+    for _ in range(150 if ctx.tier == "quick" else 1500):
+        cases.append(gen_field_ids(rng, rng.choice([1, 2, 3, 4]), 0.7))
+    exprs, impl = [], []
+    kept = []
+    for ids in cases:
+        if any(isinstance(i, float) for i in ids):
+            continue                     # str(float): outside the model
+        lo = {i: n for n, i in enumerate(ids)}
+        hi = {i: n + 100 for n, i in enumerate(ids)}
+        try:
+            _w, back, raw = bench.trip([(lo, hi)], [], want_raw=True)
+            res: Any = (0, [[k, v] for k, v in back[0].lower_bounds.items()], [[k, v] for k, v in back[0].upper_bounds.items()])
+        except ManifestUnreadable:
+            res = (1, [], [])
+        impl.append(res)
+        kept.append(ids)
+        m = lambda d: "[" + "; ".join(f"({val_to_coq(k)}, ({v})%Z)" for k, v in d.items()) + "]"
+        exprs.append("[" + "; ".join(f"match key_trip {m(d)} with TripOk l => (0, l) | TripUnreadable => (1, []) | TripOutside => (2, []) end" for d in (lo, hi)) + "]")
+    got = coqbuild.coq_eval(REQK, exprs)
+    bad = []
+    for ids, i, g in zip(kept, impl, got):
+        ctx.count(1, ("key-trip", repr(ids)))
+        (c1, l1), (c2, l2) = g
+        if c1 == 2 or c2 == 2:
+            continue
+        model = (c1, [list(x) for x in l1], [list(x) for x in l2]) if c1 == 0 and c2 == 0 else (1, [], [])
+        if model != (i[0], [list(x) for x in i[1]], [list(x) for x in i[2]]):
+            bad.append({"ids": [id_text(k) for k in ids], "impl": repr(i)[:300], "model": repr(model)[:300]})
+    ctx.correspondence("keys-trip", len(kept), bad)
+    ctx.stats["keys_trip_cases"] = len(kept)
+    ctx.stats["keys_trip_unreadable"] = sum(1 for i in impl if i[0] == 1)
+    ctx.stats["keys_trip_ids_merged_or_renamed"] = sum(1 for ids, i in zip(kept, impl) if i[0] == 0 and [id_text(k) for k, _ in i[1]] != [id_text(k) for k in ids])
+
+
+def corr_schema_ids(ctx) -> None:
+    """Which id lists the real Schema constructor accepts vs Model/SchemaIds.v schema_ids_ok over the guards regenerated from
+    Schema.__post_init__ (Gen/GenFieldKey.v)."""
+    rng = ctx.rng
+    cases: List[List[Any]] = [[1, 2, 3], [3, 1, 2], [1, 1], [1, "1"], ["1", 1], [True], [1, True], [0, False], [None], [None, None], [1.0], [1, 1.0], [1.5, 2],
+                              ["a", "a"], ["a", "b"], [2**70, -1, 0], [], ["01", 1], [" 1"], [False, True]]
+    for _ in range(200 if ctx.tier == "quick" else 2000):
+        ids = gen_field_ids(rng, rng.choice([1, 2, 3, 4]), 0.6)
+        if rng.random() < 0.15 and ids:
+            ids = ids + [rng.choice(ids)]        # a plain duplicate
+        cases.append(ids)
+    got = coqbuild.coq_eval(REQS, [f"schema_ids_ok {vals_to_coq(ids)}" for ids in cases])
+    bad = []
+    accepted_non_int = 0
+    for ids, g in zip(cases, got):
+        ctx.count(1, ("schema-ids", repr([id_text(i) for i in ids])))
+        real = schema_accepts(ids)
+        if real and any(type(i) is not int for i in ids):
+            accepted_non_int += 1
+        if real != g:
+            bad.append({"ids": [id_text(i) for i in ids], "Schema_accepts": real, "model": g})
+    ctx.correspondence("schema-ids", len(cases), bad)
+    ctx.stats["schema_ids_cases"] = len(cases)
+    ctx.stats["schema_ids_non_int_lists_accepted_by_Schema"] = accepted_non_int
+
+
 # ---------------------------------------------------------------------------------- driver
 def run(ctx) -> None:
     ctx.rule = ("correspondence: exhaustive/sampled small domains over 9 column kinds x 40 cross-kind literals x 10 operators, and "
@@ -1266,6 +1416,8 @@ def run(ctx) -> None:
     ctx.trusted_base += [
         "translator/gen_prune.py (Python ast -> Gallina for _file_may_match's try block; loop skeleton pinned by golden AST)",
         "translator/gen_bound.py (_encode_bound isinstance chain, _decode_bound tag dispatch; JSON wrapping pinned by golden AST)",
+        "translator/gen_fieldkey.py (the `if <test on f_id>: raise` guards of Schema.__post_init__'s field loop; the loop, the one binding of f_id and seen_ids.add pinned)",
+        "translator/gen_entrycodec.py (the manifest entry's record literal and the reader's DataFile construction, field by field)",
         "translator/gen_manifest13.py (create_manifest_file's entry order and per-record bounds expressions, read_manifest_file's record loop; "
         "everything else in the two functions that could touch a bound is checked fail-closed)",
         "assumption Avro-exact: fastavro gives back the list of records and their string maps as written (validated by the manifest oracle / correspondence on real manifests)",
@@ -1274,9 +1426,8 @@ def run(ctx) -> None:
         "assumption: an Arrow column holds values of one kind (hypothesis `homogeneous`)",
         "harness: harness/props/c13.py, harness/lib/coqbuild.py (vm_compute evaluation of the model on generated cases)",
     ]
-    ctx.assumptions += ["field ids unique within a schema (enforced by Schema.__post_init__)",
-                        "bounds looked up under the id they were stored under (C11)"]
-    ok = ctx.proofs(THEOREMS, gen_files=["GenPrune.v", "GenBound.v", "GenManifest13.v"])
+    ctx.assumptions += ["DataFiles reach a manifest with bounds keyed by the ids of a schema the constructor accepted (C11: schema arguments are validated)"]
+    ok = ctx.proofs(THEOREMS, gen_files=["GenPrune.v", "GenBound.v", "GenManifest13.v", "GenFieldKey.v", "GenEntryCodec.v"])
     ctx.allow_axioms([])
     walls: Dict[str, float] = {}
 
@@ -1297,7 +1448,8 @@ def run(ctx) -> None:
     # the others
     for name, fn, args in (("corr_prims", corr_prims, (ctx,)), ("corr_prune", corr_prune, (ctx,)), ("corr_bounds", corr_bounds, (ctx,)),
                            ("corr_select", corr_select, (ctx,)), ("corr_codec", corr_codec, (ctx,)),
-                           ("corr_manifest", corr_manifest, (ctx, bench, mcases))):
+                           ("corr_manifest", corr_manifest, (ctx, bench, mcases)), ("corr_keys", corr_keys, (ctx, bench)),
+                           ("corr_schema_ids", corr_schema_ids, (ctx,))):
         try:
             timed(name, fn, *args)
         except RuntimeError as e:
